@@ -87,8 +87,7 @@ def gen_module(rng, name, base=None):
         m['params'].append(v)
         used.add('value')
         if base != 'Readable':
-            t = dict(v)
-            t = {**v, 'name': 'target', 'readonly': False, 'has_read': False, 'has_write': True,
+            t = {**v, 'spec': dict(v['spec']), 'name': 'target', 'readonly': False, 'has_read': False, 'has_write': True,
                  'write_returns': rng.choice(['value', 'none']),
                  'limits': rng.choice([None, 'minmax', 'limits', 'max']), 'check': rng.choice([None, None, 'reject-all'])}
             m['params'].append(t)
